@@ -37,15 +37,15 @@ PROPS = {
                             "the same (byte, bit), demanded-bits analysis shows which bits of the position reach the cell address, writer inventory of the bit "
                             "array, reset/clear zero every word, sizing obligations (power-of-two size, mask, shift, word count, highest byte written) folded "
                             "over every size exponent."),
-    "C03": dict(fn=props_store.check_C03, floor={"sync": 40, "async": 40},
+    "C03": dict(fn=props_store.check_C03, floor={"sync": 35, "async": 35},
                 explanation="TTL visibility decided structurally: lookups hand out a value only past the conflict and expiry guards, get_ttl goes through the "
                             "expiry-checked lookup of the same key, Time::{is_expired,get_ttl,now*} have the canonical shape, the ttl parameter becomes the stored "
                             "deadline (insert*, try_update, Item, StoreItem), an update replaces the deadline, and the sweeper uses the same predicate as the lookup."),
-    "C05": dict(fn=props_store.check_C05, floor={"sync": 40, "async": 40},
+    "C05": dict(fn=props_store.check_C05, floor={"sync": 33, "async": 33},
                 explanation="Expiry index and sweeper decided structurally: bucket arithmetic, a TTL key is filed in the bucket of its deadline on every path, "
                             "try_update moves exactly the updated key, the due set is every bucket <= cleanup_bucket(now), the sweeper re-checks the stored deadline "
                             "(non-zero and elapsed), reads the cost before releasing the charge, removes the same key and reports it once through on_evict."),
-    "C09": dict(fn=props_store.check_C09, floor={"sync": 30, "async": 30},
+    "C09": dict(fn=props_store.check_C09, floor={"sync": 28, "async": 28},
                 explanation="Conditional writes decided structurally: insert_if_present passes only_update, try_update yields no item on NotExist/Reject/Conflict with "
                             "only_update, every mutation in store.try_update/try_insert (value swap, deadline write, expiry-index update, shard insert) is dominated "
                             "by the conflict test and should_update == true, rejected paths return the caller's value."),
